@@ -136,7 +136,8 @@ theorem withdraw_run {s : St} {h : Int} {tx : TxIn} {sender : Account} {req : Na
       subBalance, isNeg256, e4, e5, e6, St.setAcct, hka]
   have hres : handleTx s true h tx =
       (wdPost s0 tx sender req r h, { code := 0, kind := "ok", gasUsed := tx.gas, gasWanted := tx.gas }) := by
-    unfold handleTx
+    rw [handleTx_goodlen (cv0_to_len ok.cv0)]
+    unfold handleTxOld
     simp [ok.decodable, hfind, hs0def, hval, hrun]
   rw [hres]
   refine ⟨rfl, ?_, ?_, ?_⟩
@@ -163,13 +164,15 @@ theorem withdraw_too_much {s : St} {h : Int} {tx : TxIn} {sender : Account} {req
     simp only [bind, Except.bind]
     unfold validateWithdraw
     simp [hamt, hpay, Led.get, hrw, hrec, hmore, throw, throwThe, MonadExceptOf.throw]
-  unfold handleTx
+  rw [handleTx_goodlen (cv0_to_len cv0)]
+  unfold handleTxOld
   simp [hdec, hfind, hs0def, hval]
 
 /-- conversely, success implies every precondition -/
 theorem withdraw_success_pre {s : St} {h : Int} {tx : TxIn} (htype : tx.type = TRX_WITHDRAW)
     (hc : (handleTx s true h tx).2.code = 0) : ∃ sender req r, WithdrawOk s h tx sender req r := by
-  unfold handleTx at hc
+  rw [handleTx_goodlen (handleTx_ok_len hc)] at hc
+  unfold handleTxOld at hc
   simp only [] at hc
   have hdec : tx.decodable = true := by
     by_cases hd : tx.decodable = true
